@@ -94,6 +94,39 @@ fn damage_sure(src: &mut Src, case: &Case) -> Option<(String, &'static str, Scop
         0 => {
             // rename an end tag
             let s = pick_span(src, spans, |s| s.kind == ItemKind::ElementEnd && s.end - s.start > 2)?;
+            // second form (drawn last): the end tag drops the prefix of its start tag while the element
+            // also declares that namespace as the default one — the same expanded name, but an end tag
+            // has to repeat the start tag's name as written
+            if src.ratio(1, 4) {
+                let prefixed: Vec<(&SpanRec, &SpanRec)> = spans
+                    .iter()
+                    .filter(|e| e.kind == ItemKind::ElementEnd && e.end - e.start > 2)
+                    .filter_map(|e| {
+                        spans
+                            .iter()
+                            .find(|st| st.kind == ItemKind::ElementStart && st.path == e.path && text[st.start..st.end].contains(':'))
+                            .map(|st| (st, e))
+                    })
+                    .collect();
+                if !prefixed.is_empty() {
+                    let (st, en) = prefixed[src.choice_big(prefixed.len())];
+                    let mut cur = &case.rendered.expected;
+                    for i in &st.path {
+                        cur = cur.children().get(*i)?;
+                    }
+                    if let ANode::Element(el) = cur {
+                        let written = &text[st.start..st.end];
+                        let local = written.split(':').nth(1)?;
+                        let end_tag = &text[en.start..en.end];
+                        if end_tag.starts_with(&format!("</{}", written)) {
+                            let new_end = format!("</{}{}", local, &end_tag[2 + written.len()..]);
+                            let t = format!("{}{}{}", &text[..en.start], new_end, &text[en.end..]);
+                            let t = format!("{} xmlns=\"{}\"{}", &t[..st.end], escape_attr(&el.name.ns), &t[st.end..]);
+                            return Some((t, "end_tag_without_the_prefix_of_its_start_tag", Scope::Both));
+                        }
+                    }
+                }
+            }
             Some((ins(s.start + 2, "zz"), "end_tag_renamed", Scope::Both))
         }
         1 => {
@@ -180,6 +213,12 @@ fn damage_sure(src: &mut Src, case: &Case) -> Option<(String, &'static str, Scop
         }
         10 => {
             let s = pick_span(src, spans, |s| s.kind == ItemKind::ElementEnd)?;
+            // second form (drawn last): the prefix IS declared, but on an empty-element sibling written just
+            // before — its scope has ended (also at the top level of a fragment)
+            if src.ratio(1, 3) {
+                let what = if src.bool() { "<zz4 xmlns:zz3=\"u\"/><zz3:e/>" } else { "<zz4 xmlns:zz3=\"u\"></zz4><zz4 zz3:k=\"v\"/>" };
+                return Some((ins(s.end, what), "prefix_declared_on_a_preceding_sibling_only", Scope::Both));
+            }
             Some((ins(s.end, "<zz6:e/>"), "undeclared_element_prefix", Scope::Both))
         }
         11 => {
@@ -225,6 +264,11 @@ fn damage_sure(src: &mut Src, case: &Case) -> Option<(String, &'static str, Scop
                 if text[s.end..].contains("-->") || text[s.end..].contains("?>") {
                     return None;
                 }
+            }
+            // second form (drawn last): the reserved target in mixed case
+            if src.ratio(1, 4) {
+                let what = ["<?Xml?>", "<?xML d?>", "<?XMl?>", "<?xmL version=\"1.0\"?>"][src.choice(4)];
+                return Some((ins(s.end, what), "reserved_pi_target_in_mixed_case", Scope::Both));
             }
             Some((ins(s.end, what), "malformed_pi_or_unterminated_comment", Scope::Both))
         }
